@@ -82,6 +82,9 @@ func runC45(c *Ctx, cf c45Cfg) {
 	c.Rule("C45-T2", "every token constant the lexer returns with user-derived text has an explicit redacting arm in emitToken, is a placeholder, or is dropped before emitToken", cf.floors[1])
 	c.Rule("C45-T3", "every return with a non-nil error returns the constant UnparseableMarker as the text", cf.floors[2])
 	c.Rule("C45-T4", "Mapping.Redact*: returns are a map hit, a minted prefix+Itoa(counter) token or the original under the nil/empty guard; maps receive only minted tokens, under the write lock after the re-check; namespaces are disjoint", cf.floors[3])
+	if !c.fixtureMode {
+		c45KeyNormalForm(c, cf.rel)
+	}
 	pk := c.P.Pkg(cf.rel)
 	if pk == nil {
 		c.Undecided("C45-T1", "package", 0, "package "+cf.rel+" not loaded")
